@@ -44,6 +44,7 @@ def run(cfg, w):
     tab = dsm.sf_table(w, n, shape[1:], constrain=("range", "mono"), diag_min=(0.05 if kind.startswith("sdsm") else None))
     lifetime = dsm.AnyLifetime(dims=dims, table=tab)
     drive = dict(inflow=w.arr("in", shape)) if kind == "idsm" else dict(stock=w.arr("st", shape))
+    w.set_scale(*drive.values())
     st = dsm.build_stock(kind, dims, lifetime=lifetime, **drive)
     st.compute()
     chain = kind.startswith("sdsm")
